@@ -773,7 +773,7 @@ def laws(rng, tier, ctx):
             yield Finding('violation', case, 'a timestamp is covered more than once')
             continue
         rub = ub
-        if rng.random() < 0.3:
+        if rng.random() < 0.3 and not (opn and m == 2):   # `[None, d]` does not spell a direction (`_is_non_decreasing` reads it as increasing): not generated
             rub = ub[::-1]                                # the same frame, the bounds spelled in decreasing order
         case = dict(tag='law-roundtrip' + ('-decreasing' if rub is not ub else '') + ('+open-end' if opn else ''), lines=[roundtrip_line(dfs if rub is ub else dfs[::-1], rub, n)])
         try:
